@@ -180,7 +180,11 @@ type runObs struct {
 	calls                int
 }
 
-func runOn(m *xpath.Machine, t *mock.Tree, faults []int) (o runObs) {
+func runOn(m *xpath.Machine, t *mock.Tree, faults []int) (o runObs) { return runOnDebug(m, t, faults, false) }
+
+// runOnDebug: the same run with the context's debug listing switched on or off; the listing is a
+// diagnostic aid and must not change value or error.
+func runOnDebug(m *xpath.Machine, t *mock.Tree, faults []int, debug bool) (o runObs) {
 	t.Reset()
 	if len(faults) > 0 {
 		t.FailAt = map[int]bool{}
@@ -195,7 +199,7 @@ func runOn(m *xpath.Machine, t *mock.Tree, faults []int) (o runObs) {
 			}
 		}()
 		verifrt.SetHorizon(200000)
-		res := xpath.NewCtxFromCurrent(gocontext.Background(), m, t.At(mock.Elem{Name: "top"}, mock.Elem{Name: "ctx"})).Run()
+		res := xpath.NewCtxFromCurrent(gocontext.Background(), m, t.At(mock.Elem{Name: "top"}, mock.Elem{Name: "ctx"})).SetDebug(debug).Run()
 		if res == nil {
 			o.panicked = "Run returned nil"
 			return
@@ -272,6 +276,9 @@ func checkRunTree(idTree *mock.Tree, grammar, src string, m *xpath.Machine, faul
 		if o.numErr != o.err || o.strErr != o.err || o.bErr != o.err {
 			vs = append(vs, viol("accessor-hides-run-error", grammar, src, fmt.Sprintf("run error %q but accessors give %q %q %q", o.err, o.numErr, o.strErr, o.bErr), faults))
 		}
+	}
+	if od := runOnDebug(m, idTree, faults, true); od.hit || fmt.Sprint(od.panicked) != fmt.Sprint(o.panicked) || od.err != o.err || od.numErr != o.numErr || od.strErr != o.strErr || od.bErr != o.bErr {
+		vs = append(vs, viol("debug-run-differs", grammar, src, fmt.Sprintf("with the debug listing on: error %q panic %v horizon %v; without: error %q", od.err, od.panicked, od.hit, o.err), faults))
 	}
 	if len(idTree.Faults) > 0 {
 		first := idTree.Faults[0].Error()
